@@ -29,8 +29,7 @@ def run(tier, build, replay=None):
         c, f, t = replay["case"], replay.get("from"), replay.get("to")
         b = hist.impl_compute(c)
         i = hist.impl_compute(c, from_day=f, to_day=t)
-        fr = [(x["ev"], x["lot"], x["amt"]) for x in b["ok"]["fractions"]] if "ok" in b else []
-        raw = core.run_model([hist.line(30, l4.encode_input(c, fr, f, t, True))])
+        raw = core.run_model([l4.model_line(c, b, f, t, True, i)])
         data = {"jobs": [[0, f, t]], "impl": [i], "model": [l4.decode_computed(raw[0], c)], "base": {"cases": [c], "impl": [b]}}
     else:
         data = l4.run(tier)
@@ -51,8 +50,9 @@ def run(tier, build, replay=None):
         hi = 10 ** 9 if t is None else t
         evs = {e["row"]: e for e in hist.taxable_oracle(c)}
         inwin = lambda ts: lo <= hist.local_day(ts) <= hi  # noqa: E731
+        evwin = lambda row: row in evs and inwin(evs[row]["ts"])  # noqa: E731  (a fraction of an unknown row is never expected)
         # fractions: exactly those whose event date lies in the window, figures identical to the unfiltered run
-        want = [tuple(map(str, (x[k] for k in FIG))) for x in b["fractions"] if inwin(evs[x["ev"]]["ts"])]
+        want = [tuple(map(str, (x[k] for k in FIG))) for x in b["fractions"] if evwin(x["ev"])]
         got = [tuple(map(str, (x[k] for k in FIG))) for x in i["ok"]["fractions"]]
         if want != got:
             d = next(((a, g) for a, g in zip(want + [None], got + [None]) if a != g))
@@ -117,6 +117,7 @@ def run(tier, build, replay=None):
         "traces_validated_against_impl": len(data["jobs"]),
         "correspondence_mismatches": mism,
         "window_kinds": kinds,
+        "end_to_end_stream": hist.ods_stats(base["cases"]),
     })
     out.assumptions = ["'exactly the rows whose date lies in the window' is claimed for histories whose local dates are monotone in time (finding F9)"]
     return out.finish(proofs, build)
